@@ -118,6 +118,43 @@ impl SparqlNumber {
         }
     }
 
+    pub fn is_nan(&self) -> bool {
+        match self {
+            SparqlNumber::Float(inner) => inner.is_nan(),
+            SparqlNumber::Double(inner) => inner.is_nan(),
+            _ => false,
+        }
+    }
+
+    /// A total order on all numbers but NaN, consistent with `partial_cmp` wherever the latter is strict.
+    ///
+    /// Unlike `partial_cmp`, integers and decimals are not rounded when compared to floats and doubles,
+    /// so this order is transitive
+    /// (while `9007199254740992` and `9007199254740993` are both equal to `9007199254740992e0`).
+    pub fn total_cmp(&self, other: &Self) -> std::cmp::Ordering {
+        use SparqlNumber::*;
+        use std::cmp::Ordering;
+        // compare a float or double with a number of exact type
+        fn cmp_mixed(f: f64, exact: &SparqlNumber) -> Option<Ordering> {
+            match BigDecimal::try_from(f) {
+                Ok(d) => (&Decimal(d)).partial_cmp(&exact),
+                Err(_) if f > 0.0 => Some(Ordering::Greater),
+                Err(_) => Some(Ordering::Less),
+            }
+        }
+        match (self, other) {
+            (Float(_) | Double(_), Float(_) | Double(_)) => self
+                .coerce_to_double()
+                .partial_cmp(&other.coerce_to_double()),
+            (Float(_) | Double(_), _) => cmp_mixed(self.coerce_to_double(), other),
+            (_, Float(_) | Double(_)) => {
+                cmp_mixed(other.coerce_to_double(), self).map(Ordering::reverse)
+            }
+            _ => self.partial_cmp(&other),
+        }
+        .unwrap_or(Ordering::Equal)
+    }
+
     pub fn is_truthy(&self) -> bool {
         match self {
             SparqlNumber::NativeInt(i) => !i.is_zero(),
